@@ -273,8 +273,8 @@ def handle_candidate(prop, j, pid, pr, wd, out):
     rep = {'built': False}
     if j.native:
         rep = native_replay(j, stream, wd, tag)
-    confirmed = rep.get('built') and not rep.get('assume_violated') and (any(f == d for f in rep.get('failed', [])) or
-                                                                      (not re.match(r'C\d\d', d) and rep.get('sanitizer')))
+    # reproduced = the same assertion fails natively, or the native run of the real code trips a sanitizer / libstdc++ assertion (undefined behaviour)
+    confirmed = rep.get('built') and not rep.get('assume_violated') and (any(f == d for f in rep.get('failed', [])) or rep.get('sanitizer'))
     os.makedirs(REPLAYS, exist_ok=True)
     rpath = os.path.join(REPLAYS, '%s-%s.json' % (prop, tag))
     json.dump({'property': prop, 'job': j.name, 'entry': j.entry, 'harness': os.path.relpath(j.harness, VERIF), 'defines': j.defines,
